@@ -92,6 +92,8 @@ pub struct BrokerCfg {
 #[derive(Clone, Debug, Serialize, Deserialize, PartialEq, Eq, Hash, PartialOrd, Ord)]
 pub enum Op {
     AddProxy { addr: String, host: String, index: usize },
+    /// the same address registers again announcing other node addresses (a recreated proxy)
+    AddProxyAlt { addr: String, host: String, index: usize },
     RemoveProxy { addr: String },
     AddCluster { name: String, n: usize },
     RemoveCluster { name: String },
@@ -204,6 +206,14 @@ impl Broker {
         match op {
             Op::AddProxy { addr, host, index } => {
                 let p = serde_json::from_value(proxy_payload(addr, host, *index)).unwrap();
+                r(block_on(self.svc.add_proxy(p)))
+            }
+            Op::AddProxyAlt { addr, host, index } => {
+                let mut v = proxy_payload(addr, host, *index);
+                let port = addr.split(':').nth(1).unwrap_or("0");
+                let suffix = &port[port.len().saturating_sub(2)..];
+                v["nodes"] = json!([format!("{}:61{}0", host, suffix), format!("{}:61{}1", host, suffix)]);
+                let p = serde_json::from_value(v).unwrap();
                 r(block_on(self.svc.add_proxy(p)))
             }
             Op::RemoveProxy { addr } => r(block_on(self.svc.remove_proxy(addr.clone()))),
